@@ -80,6 +80,8 @@ class World(object):
                     shift = 260.0 if tag == 'float' else 330.0
                     for r in vals:
                         r[4] = r[4] - shift
+                    for k in range(400, 1200, 97):        # and a few events above the nominal range (legal in float files)
+                        vals[k][4] = 1500.0 + k
                     fpne = pne[:4] + ['0,0'] + pne[5:]
                 fcsgen.write_sample(p, vals, names, [1024] * 6, bits=16, datatype=dt, pne=fpne, pnv=pnv, extra=extra)
                 self.files[(inst, tag)] = os.path.basename(p)
